@@ -106,7 +106,8 @@ struct explorer
 
     void setup(const bytes& s)
     {
-        std::memset(raw, 0xEE, sizeof(raw));
+        for(std::size_t i = 0; i < sizeof(raw); i++)
+            raw[i] = (unsigned char)(0x80 | ((i * 13 + 5) & 0x3f));
         for(std::size_t i = 0; i < N; i++)
             raw[G + i] = s[i];
         std::memcpy(before, raw, sizeof(raw));
